@@ -9,6 +9,7 @@
 static int  g_sent_idx[16]; static int g_nsent;       // index digit of every response written to the connection, in order
 static int  g_disconnects, g_shutdowns; static bool g_valid; static bool g_send_pending; static void *g_ctx;
 static int  g_sent_after_disconnect;
+static size_t g_rx_threshold;                         // the receive threshold the server registers: the transport (BufferedFd) calls back only when at least that much is unconsumed
 namespace tbox { namespace network {
 struct TcpServer::Data {};
 TcpServer::TcpServer(event::Loop *) {}
@@ -16,7 +17,7 @@ TcpServer::~TcpServer() {}
 bool TcpServer::initialize(const SockAddr &, int) { return true; }
 void TcpServer::setConnectedCallback(const ConnectedCallback &) {}
 void TcpServer::setDisconnectedCallback(const DisconnectedCallback &) {}
-void TcpServer::setReceiveCallback(const ReceiveCallback &, size_t) {}
+void TcpServer::setReceiveCallback(const ReceiveCallback &, size_t threshold) { g_rx_threshold = threshold; }
 void TcpServer::setSendCompleteCallback(const SendCompleteCallback &) {}
 bool TcpServer::start() { return true; }
 void TcpServer::stop() {}
@@ -61,7 +62,9 @@ extern "C" void h_pipeline() {
     g_nsent = 0; g_disconnects = g_shutdowns = 0; g_valid = true; g_send_pending = false; g_ctx = nullptr; g_handled = 0; g_sent_after_disconnect = 0;
     Server srv(nullptr);
     Server::Impl *impl = srv.impl_;
-#ifdef LATE_ONLY                                             // cheaper variant for longer pipelines: all handlers complete late, one segment, no close
+#ifdef TAILSPLIT                                             // segmentation variant: all handlers complete inline, no close, byte-level split of the last request
+    g_inline_mask = 0xff;
+#elif defined(LATE_ONLY)                                     // cheaper variant for longer pipelines: all handlers complete late, one segment, no close
     g_inline_mask = 0;
 #else
     g_inline_mask = nondet_uchar();                         // which handlers complete inside the request callback
@@ -72,28 +75,38 @@ extern "C" void h_pipeline() {
         ctx->res().body = std::string("R") + char('0' + i);
         if (i <= NREQ && !((g_inline_mask >> i) & 1)) g_slot[i] = ctx;      // completes later: keep the context alive
     });
+    g_rx_threshold = 0;
+    VP_ASSERT(srv.initialize(network::SockAddr(), 1), "server initialize (registers its callbacks at the transport)");
     cabinet::Token ct(1, 0);
     impl->onTcpConnected(ct);
     // the pipeline: NREQ requests, at most one of them asks to close (symbolic position; NREQ = none), close kind symbolic
-#ifdef LATE_ONLY
+#if defined(LATE_ONLY) || defined(TAILSPLIT)
     unsigned close_at = NREQ; bool http10 = false;
 #else
     unsigned close_at = nondet_uchar(); VP_ASSUME(close_at <= NREQ);
     bool http10 = nondet_bool();
 #endif
     util::Buffer buff(0);
-#ifdef LATE_ONLY
+#if defined(LATE_ONLY) || defined(TAILSPLIT)
     unsigned cut = 0;
 #else
     unsigned cut = nondet_uchar(); VP_ASSUME(cut <= NREQ);   // requests [0,cut) arrive in the first segment, the rest in a second one
 #endif
+    // the transport's contract (network::BufferedFd): after new bytes arrived the callback runs iff the unconsumed bytes reach the registered threshold
+    #define DELIVER() do { if (g_valid && buff.readableSize() > 0 && buff.readableSize() >= g_rx_threshold) impl->onTcpReceived(ct, buff); } while (0)
+#ifdef TAILSPLIT                                             // segmentation at server level: the last `tail` bytes of the last request arrive in a segment of their own
+    unsigned tail = nondet_uchar(); VP_ASSUME(tail <= 24);
+#else
+    unsigned tail = 0;
+#endif
     for (unsigned i = 0; i < NREQ; i++) {
         const char *r = (i == close_at) ? (http10 ? REQ_10 : REQ_CLOSE) : REQ_KEEP;
         size_t n = 0; while (r[n]) n++;
-        if (i == cut && i > 0) { if (g_valid) impl->onTcpReceived(ct, buff); }
-        buff.append(r, n);
+        if (i == cut && i > 0) DELIVER();
+        if (i == NREQ - 1 && tail > 0) { buff.append(r, n - tail); DELIVER(); buff.append(r + (n - tail), tail); }
+        else buff.append(r, n);
     }
-    if (g_valid) impl->onTcpReceived(ct, buff);
+    DELIVER();
     int expected = (close_at < NREQ) ? (int)close_at + 1 : NREQ;     // requests after the closing one get no response
     // late completions in a symbolic order, send-complete notifications at symbolic moments
     for (int step = 0; step < NREQ; step++) {
